@@ -172,6 +172,7 @@ type alphabet struct {
 	splices  []spliceDef
 	lens     []int
 	goOps    []goOp
+	readAll  bool // traversals that read every element wrapper, ascending and descending
 }
 
 func buildOps(a *alphabet) []*op {
@@ -253,6 +254,32 @@ func buildOps(a *alphabet) []*op {
 			add(&op{name: fmt.Sprintf("%s.unshift(%s)", t.name, v.name), kind: "unshift", tgt: t.idx,
 				js:    fmt.Sprintf("return %s.unshift(%s);", t.js, v.js),
 				model: func(m *model) mval { r := arr(m); return m.unshift(r, v.mv(m)) }})
+		}
+		if a.readAll {
+			add(&op{name: "readall-asc " + t.name, kind: "get", tgt: t.idx,
+				js: "for (var i=0;i<" + t.js + ".length;i++) " + t.js + "[i]; return 0;",
+				model: func(m *model) mval {
+					r := refOf(t.get(m))
+					if !m.isArrayLike(r) {
+						return vInt(0) // no length: the loop body never runs
+					}
+					for i := 0; i < r.loc.Len(); i++ {
+						m.get(r, strconv.Itoa(i))
+					}
+					return vInt(0)
+				}})
+			add(&op{name: "readall-desc " + t.name, kind: "get", tgt: t.idx,
+				js: "for (var i=" + t.js + ".length-1;i>=0;i--) " + t.js + "[i]; return 0;",
+				model: func(m *model) mval {
+					r := refOf(t.get(m))
+					if !m.isArrayLike(r) {
+						return vInt(0)
+					}
+					for i := r.loc.Len() - 1; i >= 0; i-- {
+						m.get(r, strconv.Itoa(i))
+					}
+					return vInt(0)
+				}})
 		}
 		add(&op{name: t.name + ".pop()", kind: "pop", tgt: t.idx, js: "return " + t.js + ".pop();",
 			model: func(m *model) mval { return m.pop(arr(m)) }})
